@@ -504,6 +504,11 @@ func (c *Ctx) ruleNoNondet() {
 			case strings.HasPrefix(name, "time.Now"), strings.HasPrefix(name, "time.Since"), strings.HasPrefix(name, "math/rand"), strings.HasPrefix(name, "crypto/rand"), name == "os.Getpid", name == "os.Hostname":
 				n++
 				c.fail("NO-NONDET", FuncName(fn), P.Pos(ci.Pos()), "analysis depends on "+name)
+			case name == "(*go/token.FileSet).Base" || name == "(*go/token.FileSet).Iterate":
+				// the file set is shared by all packages of a run and grows in the order the driver happens to parse
+				// files: its next base, and the order of its files, differ between schedules
+				n++
+				c.fail("NO-NONDET", FuncName(fn), P.Pos(ci.Pos()), "analysis depends on "+name+": the shared file set grows in parse order, which differs between runs and schedules")
 			case name == "os.Getenv" || name == "os.LookupEnv" || name == "os.Environ":
 				if pkgShort != "config" {
 					n++
@@ -623,4 +628,88 @@ func (c *Ctx) ruleSyntaxReadOnly() {
 		})
 	}
 	c.count("writes to go/ast nodes", n)
+}
+
+// ruleSharedSliceMutation (C11, twelfth round): a slice handed out by go/types, go/ast or the pass (Package.Imports(),
+// File.Decls, pass.Files, ...) is the object's own storage, shared by every analyzer working on the package and by
+// the packages that import it: sorting / reversing / copying into it in place is a data race, and the order others
+// see depends on the schedule. An in-place mutator of the library may only be applied to a slice that does not
+// originate from such an object.
+func (c *Ctx) ruleSharedSliceMutation() {
+	P := c.P
+	mutators := map[string]int{
+		"sort.Slice": 0, "sort.SliceStable": 0, "sort.Sort": 0, "sort.Stable": 0, "sort.Strings": 0, "sort.Ints": 0, "sort.Float64s": 0,
+		"slices.Sort": 0, "slices.SortFunc": 0, "slices.SortStableFunc": 0, "slices.Reverse": 0,
+	}
+	sharedPkg := func(path string) bool {
+		return path == "go/types" || path == "go/ast" || path == "go/token" || path == "golang.org/x/tools/go/analysis"
+	}
+	sharedOrigin := func(r ssa.Value) string {
+		switch x := r.(type) {
+		case *ssa.Call:
+			if callee := x.Call.StaticCallee(); callee != nil && callee.Pkg != nil && sharedPkg(callee.Pkg.Pkg.Path()) {
+				return FuncName(callee)
+			}
+			if x.Call.IsInvoke() && x.Call.Method.Pkg() != nil && sharedPkg(x.Call.Method.Pkg().Path()) {
+				return x.Call.Method.FullName()
+			}
+		case *ssa.UnOp:
+			if fa, ok := x.X.(*ssa.FieldAddr); ok {
+				if nm, ok := deref(fa.X.Type()).(*types.Named); ok && nm.Obj().Pkg() != nil && sharedPkg(nm.Obj().Pkg().Path()) {
+					return typeStr(nm) + "." + fieldName(deref(fa.X.Type()), fa.Field)
+				}
+			}
+		}
+		return ""
+	}
+	n := 0
+	for _, fn := range P.ModFuncs {
+		allInstrs(fn, func(b *ssa.BasicBlock, ins ssa.Instruction) {
+			ci, ok := ins.(ssa.CallInstruction)
+			if !ok {
+				return
+			}
+			var target ssa.Value
+			name := P.calleeName(ci.Common())
+			if i := strings.Index(name, "["); i > 0 {
+				name = name[:i] // instantiation of a generic
+			}
+			if argi, isMut := mutators[name]; isMut && len(ci.Common().Args) > argi {
+				target = ci.Common().Args[argi]
+			} else if bi, isB := ci.Common().Value.(*ssa.Builtin); isB && bi.Name() == "copy" {
+				target = ci.Common().Args[0]
+			}
+			if target == nil {
+				return
+			}
+			n++
+			// through conversions to an interface / named slice type (sort.Sort(byPath(xs)))
+			from := ""
+			P.RootsAllDeep(target, func(r ssa.Value) bool {
+				for depth := 0; depth < 4; depth++ {
+					switch x := r.(type) {
+					case *ssa.MakeInterface:
+						r = x.X
+						continue
+					case *ssa.ChangeType:
+						r = x.X
+						continue
+					case *ssa.Slice:
+						r = x.X
+						continue
+					}
+					break
+				}
+				for _, q := range P.ResolveDeep(r) {
+					if o := sharedOrigin(q); o != "" {
+						from = o
+					}
+				}
+				return true
+			})
+			c.check(from == "", "SHARED-RO", fmt.Sprintf("%s#inplace%d", FuncName(fn), n), P.Pos(ci.Pos()), name+" is applied to a slice of this function's own",
+				name+" rearranges, in place, the slice handed out by "+from+": that storage is shared with the analyzers running concurrently (and with the packages importing this one) - a data race, and the order they see depends on the schedule")
+		})
+	}
+	c.count("in-place slice mutators (sort, reverse, copy)", n)
 }
